@@ -239,7 +239,7 @@ def cli_case(ctx, k):
                 sl[pos] = rng.choice("NNn")
             q = [30] * L
             recs.append((f"b{j}", "".join(sl), "".join(chr(base + x) for x in q), q))
-    thr = dict(ee=rng.choice(["0.01", "0.5", "1", "3"]), aer=rng.choice(["0.001", "0.01", "0.1", "0.3"]), n=rng.choice(["0", "1", "0.1", "0.5"]))[mode]
+    thr = dict(ee=rng.choice(["0.01", "0.5", "1", "3", "0", "0.0"]), aer=rng.choice(["0.001", "0.01", "0.1", "0.3"]), n=rng.choice(["0", "1", "0.1", "0.5", "1.5", "2.5", "2.0"]))[mode]
     if boundary:
         thr = boundary[2]
     d = os.path.join(ctx.scratch, f"cli{k}")
@@ -288,7 +288,7 @@ def cli_pair_case(ctx, k):
     rng = ctx.rng("c14pair", k)
     base = rng.choice([33, 64])
     mode = rng.choice(["ee", "aer", "n"])
-    thr = dict(ee=rng.choice(["0.05", "0.5", "1", "3"]), aer=rng.choice(["0.001", "0.01", "0.05", "0.2"]), n=rng.choice(["0", "1", "0.2"]))[mode]
+    thr = dict(ee=rng.choice(["0.05", "0.5", "1", "3", "0"]), aer=rng.choice(["0.001", "0.01", "0.05", "0.2"]), n=rng.choice(["0", "1", "0.2", "1.5"]))[mode]
     pf = rng.choice([None, "any", "both", "first"])
 
     def mate(i, tag):
